@@ -207,6 +207,74 @@ func diamondFamily(thorough bool) [][][]ref.P {
 	return out
 }
 
+// towerFamily: a rectangle with a narrow tower on top (a non-convex shell with vertical edges that
+// end above the interior) and a rectangular hole whose sides line up - after snapping - with the
+// tower walls' pixel columns, or not; every start vertex of shell and hole.
+func towerFamily(thorough bool) [][][]ref.P {
+	var out [][][]ref.P
+	shell := []ref.P{{0, 0}, {40, 0}, {40, 28}, {24, 28}, {24, 36}, {16, 36}, {16, 28}, {0, 28}}
+	x0s, x1s := []int64{13, 17}, []int64{25, 29}
+	if thorough {
+		x0s, x1s = []int64{9, 13, 17, 21}, []int64{21, 25, 29, 33}
+	}
+	for _, x0 := range x0s {
+		for _, x1 := range x1s {
+			for _, y0 := range []int64{6, 12} {
+				for _, y1 := range []int64{18, 22} {
+					if x0 >= x1 {
+						continue
+					}
+					h := rect(x0, y0, x1, y1, true)
+					for _, sr := range rotations(shell, allRot(len(shell))) {
+						for _, hr := range rotations(h, allRot(4)) {
+							if ref.HoleOK(sr, nil, hr) {
+								out = append(out, [][]ref.P{sr, hr})
+							}
+						}
+					}
+				}
+			}
+		}
+	}
+	return out
+}
+
+// touchFamily: a large and a small diamond whose tips lie in the same pixel (the snapped shell splits
+// into two shells touching at one pixel centre) and a triangular hole in the large part whose first
+// vertex lies in that same pixel; every start vertex of the shell, every start vertex of the hole.
+func touchFamily(thorough bool) [][][]ref.P {
+	var out [][][]ref.P
+	ws := []int64{1}
+	if thorough {
+		ws = []int64{1, 2}
+	}
+	for _, w := range ws {
+		c := int64(30)
+		shell := []ref.P{{28, 2}, {57, c - w}, {59, c - w}, {72, c - 12}, {86, c}, {72, c + 12}, {59, c + w}, {57, c + w}, {28, 58}, {0, c}}
+		if !ref.Simple(shell) || ref.Area2(shell) <= 0 {
+			continue
+		}
+		holes := [][]ref.P{
+			{{56, c}, {32, c + 14}, {32, c - 14}}, // large part, a vertex in the shared pixel; wide enough to have interior > 1 px from its boundary
+			{{52, c}, {32, c + 14}, {32, c - 14}}, // large part, not touching
+			{{60, c}, {70, c + 5}, {70, c - 5}},   // small part, a vertex in the shared pixel
+		}
+		for _, sr := range rotations(shell, allRot(len(shell))) {
+			for _, h := range holes {
+				if ref.Area2(h) > 0 {
+					h = []ref.P{h[0], h[2], h[1]}
+				}
+				for _, hr := range rotations(h, allRot(3)) {
+					if ref.HoleOK(sr, nil, hr) {
+						out = append(out, [][]ref.P{sr, hr})
+					}
+				}
+			}
+		}
+	}
+	return out
+}
+
 func familyScopes(thorough bool) []Scope {
 	one := [][]int{{0}}
 	return []Scope{
@@ -214,6 +282,8 @@ func familyScopes(thorough bool) []Scope {
 		{Name: "F-moat", GS: synthGS(0, 4, [2]int64{1, 1}), Spec: lat.Spec{Explicit: moatFamily(thorough), Valid: true}, IDSets: one, Cfgs: keepCfgs},
 		{Name: "F-c", GS: synthGS(0, 4, [2]int64{1, 2}), Spec: lat.Spec{Explicit: cFamily(thorough), Valid: true}, IDSets: one, Cfgs: keepCfgs},
 		{Name: "F-diamond", GS: GridSpec{Kind: "synth", Deepest: 1, Px: 1, Sub: 4, OffPx: [2]int64{1, 9}, TileWidth: 1}, Spec: lat.Spec{Explicit: diamondFamily(thorough), Valid: true}, IDSets: [][]int{{1}}, Cfgs: keepCfgs},
+		{Name: "F-tower", GS: synthGS(0, 4, [2]int64{2, 3}), Spec: lat.Spec{Explicit: towerFamily(thorough), Valid: true}, IDSets: one, Cfgs: keepCfgs},
+		{Name: "F-touch", GS: GridSpec{Kind: "synth", Deepest: 1, Px: 1, Sub: 4, OffPx: [2]int64{1, 9}, TileWidth: 1}, Spec: lat.Spec{Explicit: touchFamily(thorough), Valid: true}, IDSets: [][]int{{1}}, Cfgs: keepCfgs},
 		{Name: "F-snake", GS: synthGS(0, 8, [2]int64{0, 2}), Spec: lat.Spec{Explicit: snakeFamily(thorough), Valid: true}, IDSets: one, Cfgs: keepCfgs},
 	}
 }
@@ -274,4 +344,69 @@ func kmpFamily(thorough bool) [][][]ref.P {
 
 func kmpScope(thorough bool) Scope {
 	return Scope{Name: "F-kmp", GS: synthGS(4, 2, [2]int64{0, 0}), Spec: lat.Spec{Explicit: kmpFamily(thorough)}, IDSets: [][]int{{4}}, Cfgs: keepCfgs}
+}
+
+// borderKiteFamily: kites with a triangular hole whose tip lies within a few fixed-point steps of a
+// border between two shallow quadrants of a real (non-dyadic) grid: the quadrant extents used while
+// descending the index are computed with truncated divisions, so a vertex just beside such a border is
+// where the descent and the indexing of vertices can disagree.  Lattice: sub = 2^20 steps per pixel of
+// the deepest id; the origin of the lattice is put on the border (see borderScopes).  The figure is
+// turned in all four directions so that the tip approaches a vertical and a horizontal border from
+// either side; e = distance of the tip from the border in steps.
+const borderSub = int64(1) << 20
+
+func borderKiteFamily(thorough bool) [][][]ref.P {
+	es := []int64{-50, -5, -1, 0, 1, 5, 50}
+	if thorough {
+		es = []int64{-500, -50, -11, -5, -2, -1, 0, 1, 2, 5, 11, 50, 500}
+	}
+	t := func(px10 int64) int64 { return px10 * borderSub / 10 } // tenths of a pixel -> steps
+	var out [][][]ref.P
+	for _, e := range es {
+		shell := []ref.P{{e, t(6)}, {t(-34), t(28)}, {t(-65), t(7)}, {t(-33), t(-18)}}
+		hole := []ref.P{{t(-23), t(8)}, {t(-47), t(-1)}, {t(-46), t(13)}}
+		if ref.Area2(shell) <= 0 {
+			continue
+		}
+		if ref.Area2(hole) > 0 {
+			hole[1], hole[2] = hole[2], hole[1]
+		}
+		for turn := 0; turn < 4; turn++ {
+			for _, sr := range rotations(shell, allRot(4)) {
+				for _, hr := range rotations(hole, allRot(3)) {
+					if ref.HoleOK(sr, nil, hr) {
+						out = append(out, [][]ref.P{append([]ref.P{}, sr...), append([]ref.P{}, hr...)})
+					}
+				}
+			}
+			for i := range shell {
+				shell[i] = ref.P{-shell[i][1], shell[i][0]}
+			}
+			for i := range hole {
+				hole[i] = ref.P{-hole[i][1], hole[i][0]}
+			}
+		}
+	}
+	return out
+}
+
+// borderScopes: the kite family at anchors of WebMercatorQuad (whose extent is not a power of two
+// times the fixed-point unit) where the lattice origin lies on a border of level 1 (centre of the
+// extent) resp. of levels 2 and 3 on the two axes; id 10 as in the tool's documentation examples.
+func borderScopes(thorough bool) []Scope {
+	const z = 10
+	size := int64(1) << (z + 8 + 4) // pixels per axis on the deepest level of id 10 (tile width 256)
+	var scs []Scope
+	for _, a := range []struct {
+		name string
+		px   [2]int64
+	}{
+		{"centre", [2]int64{size / 2, size / 2}},
+		{"L2xL3", [2]int64{3 * size / 4, 5 * size / 8}},
+	} {
+		scs = append(scs, Scope{Name: "F-border-kite:WebMercatorQuad-z10@" + a.name,
+			GS:   GridSpec{Kind: "real", Set: "WebMercatorQuad", Deepest: z, Sub: borderSub, OffPx: a.px},
+			Spec: lat.Spec{Explicit: borderKiteFamily(thorough), Valid: true}, IDSets: [][]int{{z}}, Cfgs: keepCfgs})
+	}
+	return scs
 }
